@@ -86,7 +86,7 @@ class TvResult:
 
 
 def validate_trace(module, trace_path, name, constants=None, invariants=(), timeout=900,
-                   heap="4g"):
+                   heap="4g", constraints=()):
     """TLC trace validation: `module` is a Trace*.tla with TraceSpec / TraceAccepted."""
     res = TvResult()
     with open(trace_path) as f:
@@ -95,19 +95,19 @@ def validate_trace(module, trace_path, name, constants=None, invariants=(), time
         res.accepted = True
         return res
     cfg = cfg_text(constants or {}, invariants=invariants, spec="TraceSpec",
-                   check_deadlock=False, postcondition="TraceAccepted")
+                   check_deadlock=False, postcondition="TraceAccepted", constraints=constraints)
     if not constants:
         cfg = cfg.replace("CONSTANTS\n", "")
     r = run_tlc(module, cfg, name, workers=1, timeout=timeout, env={"TRACE": trace_path},
                 dfs_queue=True, heap=heap)
     res.tlc = r
-    m = re.search(r'<<"TRACE_REJECTED", (\d+), (.*)>>', r.stdout)
+    m = re.search(r'"TRACE_REJECTED",\s*(\d+)', r.stdout)
     if m:
         res.rejected_at = int(m.group(1))
         try:
             res.rejected = read_ndjson(trace_path)[res.rejected_at - 1]
         except Exception:
-            res.rejected = m.group(2)
+            res.rejected = "line %d" % res.rejected_at
         return res
     if r.violation and r.violation != "postcondition":
         res.violation = r.violation
@@ -120,6 +120,21 @@ def validate_trace(module, trace_path, name, constants=None, invariants=(), time
     else:
         res.error = r.error or "trace validation did not complete"
     return res
+
+
+def strip_runs_through(trace_path, line_no, out_path):
+    """Write to out_path the runs that start after the run containing 1-based line_no."""
+    with open(trace_path) as f:
+        lines = f.readlines()
+    k = None
+    for i in range(line_no, len(lines)):
+        if '"e":"reset"' in lines[i]:
+            k = i
+            break
+    with open(out_path, "w") as f:
+        if k is not None:
+            f.writelines(lines[k:])
+    return 0 if k is None else len(lines) - k
 
 
 def scenario_of_line(trace_path, line_no):
@@ -206,9 +221,9 @@ class Check:
 
     # ---- trace validation ------------------------------------------------
     def trace_validate(self, module, trace_path, name, constants=None, invariants=(),
-                       timeout=900):
+                       timeout=900, constraints=()):
         tv = validate_trace(module, trace_path, "%s_%s" % (self.pid, name), constants,
-                            invariants, timeout)
+                            invariants, timeout, constraints=constraints)
         self.tv.append({"module": module, "name": name, "lines": tv.lines,
                         "accepted": tv.accepted, "rejected_at": tv.rejected_at,
                         "rejected": tv.rejected, "violation": tv.violation, "error": tv.error})
@@ -219,6 +234,39 @@ class Check:
                                          "REJECTED at %s %s %s" % (tv.rejected_at, tv.rejected,
                                                                    tv.violation or "")))
         return tv
+
+    def validate_runs(self, module, trace_path, name, classify, constants=None, invariants=(),
+                      constraints=(), max_rejections=4):
+        """Validate a file of concatenated runs. A rejected run does not hide later ones: it is
+        recorded with its class and validation resumes after it. Returns
+        [(run index n, rejected record or invariant name, class)], accepted_lines."""
+        rejections = []
+        accepted_lines = 0
+        path = trace_path
+        rounds = 0
+        while True:
+            tv = self.trace_validate(module, path, name + ("" if rounds == 0 else "_r%d" % rounds),
+                                     constants=constants, invariants=invariants,
+                                     constraints=constraints)
+            if tv.accepted:
+                accepted_lines += tv.lines
+                break
+            at = tv.rejected_at or 1
+            n = scenario_of_line(path, at)
+            what = tv.rejected if tv.rejected is not None else tv.violation
+            rejections.append((n, what, classify(tv)))
+            accepted_lines += max(at - 1, 0)
+            rounds += 1
+            if rounds >= max_rejections:
+                self.exhaustive = False
+                self.note("%s: stopped after %d rejected runs; the rest of the file was not "
+                          "validated" % (name, rounds))
+                break
+            nxt = "%s.rest%d" % (trace_path, rounds)
+            if strip_runs_through(path, at, nxt) <= 1:
+                break
+            path = nxt
+        return rejections, accepted_lines
 
     # ---- verdicts --------------------------------------------------------
     def violation(self, what, replay_path, key=None):
